@@ -306,7 +306,8 @@ def run_poly(c):
 
 
 # ----------------------------------------------------------------------------------------------- angles
-ANG = ["points2", "lines2", "line_dir2", "points3", "lines3", "planes", "polygon_angles"]
+ANG = ["points2", "lines2", "line_dir2", "points3", "lines3", "planes", "polygon_angles", "zero_angle"]
+ZERO = ["points2", "lines2", "line_dir2", "points3", "lines3", "line_dir3", "planes"]  # distinct objects enclosing the angle 0
 
 
 @st.composite
@@ -336,6 +337,31 @@ def run_ang(c):
         cls = {G.Point: PointCollection, G.Line: LineCollection, G.Plane: PlaneCollection}[type(o)]
         return cls(np.stack([o.array, o.array * -2.0]))
 
+    if cfg == "zero_angle":
+        # distinct objects that enclose the angle zero: collinear points, parallel lines, a line and a parallel direction,
+        # parallel planes (identical objects are not generated: "two lines" are two lines)
+        sub = ZERO[c["ang"] % len(ZERO)]
+        d3 = sub.endswith("3") or sub == "planes"
+        n = 3 if d3 else 2
+        a, u = np.array(v[0:n], float), np.array(v[3:3 + n], float)
+        off = np.array(v[6:6 + n], float)
+        if not np.any(u) or np.linalg.matrix_rank(np.stack([u, off])) < 2:
+            raise Skip("degenerate")
+        k1, k2 = (v[9] % 4) + 1, -((v[10] % 3) + 1)
+        if sub.startswith("points"):
+            args = [P(a, s[0]), P(a + k1 * u, s[1]), P(a + k2 * u, s[2])]
+        elif sub.startswith("lines"):
+            args = [Line(P(a), P(a + u)), Line(P(a + off), P(a + off + k1 * u))]
+        elif sub.startswith("line_dir"):
+            args = [Line(P(np.zeros(n)), P(u)), Point(np.append(k2 * u, 0.0) * s[1])]
+        else:
+            args = [Plane(np.append(u, v[11]) * s[0]), Plane(np.append(u, v[11] + 1 + (v[12] % 3)) * s[1])]
+        site = f"angle:zero:{sub}"
+        r, f = call(site, angle, *args)
+        if f:
+            return [f]
+        ck.check(np.ndim(r) == 0 and C.angle_eq_mod_pi(float(np.real(r)), 0.0) and abs(np.imag(r)) < 1e-7, site + ":value", complex(r))
+        return ck.result()
     if cfg == "polygon_angles":
         verts = Z.polygon_vertices(v, 2)[:, :2]
         poly = Polygon(np.concatenate([verts, np.ones((len(verts), 1))], axis=1))
@@ -494,8 +520,16 @@ LAWS = [
         "point-line/plane, plane-parallel line/plane, both orders, incident pairs, equal coordinate vectors of different kinds", shard=400),
     Law("dist_polytope", lambda tier: poly_case(tier), run_poly, lambda c: True, lambda c: [c["cfg"]] + (["derived-from-a-used-object"] if c.get("derive") else []), {"quick": 700, "thorough": 12000},
         "point-segment, point-polygon (2D boundary/outside, 3D anywhere), point-cuboid (outside/surface); Segment.length", shard=150),
-    Law("angle", lambda tier: ang_case(tier), run_ang, lambda c: True, lambda c: [c["cfg"]] + ([c["iso"]] if c["iso"] else []), {"quick": 2000, "thorough": 40000},
+    Law("angle", lambda tier: ang_case(tier), run_ang, lambda c: True, lambda c: [c["cfg"]] + ([c["iso"]] if c["iso"] else []) + ([ZERO[c["ang"] % len(ZERO)] + ":zero"] if c["cfg"] == "zero_angle" else []), {"quick": 2000, "thorough": 40000},
         "angle mod pi with README orientation in 2D (antisymmetric, isometry behaviour), cos^2 in 3D / planes; Polygon.angles", shard=400),
     Law("dist_isometry", lambda tier: iso_case(tier), run_iso, lambda c: True, lambda c: [f"{c['kind']}{c['d']}", "refl" if c["refl"] else "rot"], {"quick": 800, "thorough": 15000},
         "dist(t*o, t*q) = dist(o, q) for rotations, translations, reflections", shard=400),
 ]
+
+
+def zero_angle_in_3space(case):
+    """distinct collinear points, a line and a parallel direction in 3-space, or distinct parallel planes"""
+    return case.get("cfg") == "zero_angle" and ZERO[case.get("ang", 0) % len(ZERO)] in ("points3", "line_dir3", "planes")
+
+
+PREDICATES = {"zero_angle_in_3space": zero_angle_in_3space}
